@@ -69,7 +69,7 @@ theorem tr_msgRecvPacket {s s' : ChainState} {env : Env} {p : PacketV1} {app : A
   unfold msgRecvPacket done at h
   msplit h
   all_goals msubst h
-  all_goals (obtain ⟨child, hr⟩ : ∃ c, recvPacketV1 s env p = .ok c := ⟨_, by assumption⟩)
+  all_goals (have hr := ‹recvPacketV1 s env p = Except.ok _›)
   · -- successful acknowledgement
     obtain ⟨bz, ch, hbz, _, _, _, hnone, rfl⟩ := writeAckV1_ok (by assumption)
     exact tr_recv1 hr _ _ (.inr ⟨bz, hnone, rfl⟩)
@@ -81,7 +81,7 @@ theorem tr_msgRecvPacket {s s' : ChainState} {env : Env} {p : PacketV1} {app : A
   · -- the application wrote an acknowledgement itself and returned one: the second write fails
     exact absurd (writeAckV1_twice (by assumption) (by assumption)) id
   · -- its own write failed; the handler's write fails for the same reason
-    exact absurd (except_ok_error (by assumption) (by assumption)) id
+    contradiction
 
 /-! ### acknowledgement / timeout -/
 
